@@ -345,7 +345,7 @@ def run(ctx: Check, tree: Tree) -> None:
     ]
     ctx.not_decided += ["evaluation for arbitrary summands (SymPy's subs on the summand)", "three-level nesting inside HelicityModel.expression"]
     ctx.assumptions += ["sympy.Basic.subs consults _eval_subs before descending into args; ExprWithLimits (Sum, Integral) guards its own bound variables"]
-    check_binder(ctx, tree)
-    check_free_symbols(ctx, tree)
-    check_evaluate(ctx, tree)
-    check_cleanup(ctx, tree)
+    ctx.section(check_binder, ctx, tree)
+    ctx.section(check_free_symbols, ctx, tree)
+    ctx.section(check_evaluate, ctx, tree)
+    ctx.section(check_cleanup, ctx, tree)
